@@ -170,6 +170,9 @@ func (c *Case) request() map[string]any {
 	if c.Facts != "" {
 		req["facts"] = c.Facts
 	}
+	if len(c.Globals) > 0 {
+		req["globals"] = valJSON(map[string]interface{}(c.Globals))
+	}
 	return req
 }
 
@@ -340,6 +343,36 @@ func shadowOracle(e *Env, c *Case, im Outcome) {
 	}
 	im2 := runImpl(&c2)
 	e.Rep.Hit("globals-shadowed-by-context")
+	if e.Model != nil {
+		// the model has engine globals too (Env.globals): it must agree on the run with globals
+		if mo2, _, err := runModel(e.Model, &c2); err == nil && mo2.Unsupported == "" && !mo2.Fuel {
+			e.Rep.Compared++
+			if same, why := agree(im2, mo2); !same {
+				e.Rep.Violate(Violation{Key: "render-model-globals", What: "model and implementation disagree on a render with engine globals: " + why,
+					Broken: "correspondence render (TwigModel.Render with Env.globals vs the real engine with AddGlobal)", Replay: c2.replay(im2, mo2)})
+			}
+		}
+	}
+	// globals that ARE visible: names the generators leave undefined, bind late (set, loop variables) or pass with
+	// `with`; here only the model can say what the right output is
+	if e.Model != nil {
+		c3 := *c
+		c3.Globals = map[string]any{}
+		for _, k := range []string{"a", "b", "c", "d", "p", "q", "undefinedvar", "leak", "zz", "x1", "v", "item", "k", "idx", "i1", "i2", "g", "who"} {
+			if _, inCtx := c.Ctx[k]; !inCtx {
+				c3.Globals[k] = "G-" + k
+			}
+		}
+		im3 := runImpl(&c3)
+		if mo3, _, err := runModel(e.Model, &c3); err == nil && mo3.Unsupported == "" && !mo3.Fuel {
+			e.Rep.Compared++
+			e.Rep.Hit("globals-visible")
+			if same, why := agree(im3, mo3); !same {
+				e.Rep.Violate(Violation{Key: "render-model-globals", What: "model and implementation disagree on a render with engine globals: " + why,
+					Broken: "correspondence render (TwigModel.Render with Env.globals vs the real engine with AddGlobal)", Replay: c3.replay(im3, mo3)})
+			}
+		}
+	}
 	if im2.Class != im.Class || im2.Out != im.Out || !sameEvs(im2.Spies, im.Spies) {
 		rp := c.replay(im, im2)
 		rp["globals"] = c2.Globals
